@@ -14,26 +14,26 @@ import (
 type Feature uint32
 
 const (
-	FRef           Feature = 1 << iota // $ref to a component
-	FRecursion                         // recursive components (list, tree, mutual, recursive sum)
-	FOneOf                             // oneOf sums
-	FAnyOf                             // anyOf sums
-	FDiscriminator                     // discriminator + mapping on object sums
-	FAllOf                             // allOf of object schemas
-	FNullable                          // nullable: true
-	FEnum                              // enum on string / integer
-	FPattern                           // pattern (from Patterns)
-	FLength                            // minLength / maxLength
-	FBounds                            // minimum / maximum / exclusive*
-	FMultipleOf                        // multipleOf
-	FNumber                            // type: number (non-integer values)
-	FItemCounts                        // minItems / maxItems
-	FUniqueItems                       // uniqueItems
-	FAdditional                        // additionalProperties: false / true / schema
-	FPropCounts                        // minProperties / maxProperties
-	FRequiredUndeclared                // required names that are not declared under properties
-	FWide                              // objects with >= 9 / >= 17 properties at random
-	FBigInt                            // integer bounds near ±2^31 and ±2^53
+	FRef                Feature = 1 << iota // $ref to a component
+	FRecursion                              // recursive components (list, tree, mutual, recursive sum)
+	FOneOf                                  // oneOf sums
+	FAnyOf                                  // anyOf sums
+	FDiscriminator                          // discriminator + mapping on object sums
+	FAllOf                                  // allOf of object schemas
+	FNullable                               // nullable: true
+	FEnum                                   // enum on string / integer
+	FPattern                                // pattern (from Patterns)
+	FLength                                 // minLength / maxLength
+	FBounds                                 // minimum / maximum / exclusive*
+	FMultipleOf                             // multipleOf
+	FNumber                                 // type: number (non-integer values)
+	FItemCounts                             // minItems / maxItems
+	FUniqueItems                            // uniqueItems
+	FAdditional                             // additionalProperties: false / true / schema
+	FPropCounts                             // minProperties / maxProperties
+	FRequiredUndeclared                     // required names that are not declared under properties
+	FWide                                   // objects with >= 9 / >= 17 properties at random
+	FBigInt                                 // integer bounds near ±2^31 and ±2^53
 )
 
 // GenOptions steers GenSchema. The zero value means: depth 3, every feature.
@@ -644,6 +644,7 @@ func (g *sgen) object(d int, oo objOpts) (*jsonv.Value, info) {
 	height := 0
 	for _, f := range oo.fixed {
 		props = append(props, prop{f.name, f.schema, f.required})
+		height = 1 // fixed properties are scalars or references the caller accounts for
 	}
 	n := 0
 	switch r := g.rng.Intn(100); {
